@@ -579,10 +579,10 @@ Section Passes.
     - apply IH; [|exact Hin]. eapply NoDup_app_remove_l. exact H.
   Qed.
 
-  Lemma dedup_loop_pres sl r : forall inits seen m, WF m -> NoOpFunc m ->
+  Lemma dedup_loop_pres keyeq sl r : forall inits seen m, WF m -> NoOpFunc m ->
     NoDup (map fst inits) -> (forall vt, In vt inits -> In vt (all_inits m)) ->
     (forall wt, In wt seen -> In wt (all_inits m) /\ is_graph_input m (fst wt) = false /\ ~ In (fst wt) (map fst inits)) ->
-    Pres m (dedup_graph_loop sl r inits seen m).
+    Pres m (dedup_graph_loop keyeq sl r inits seen m).
   Proof.
     induction inits as [|[v t] rest IH]; intros seen m HW HN Hnd Hin Hseen; simpl; [apply Pres_refl; assumption|].
     inversion Hnd; subst.
@@ -590,8 +590,11 @@ Section Passes.
     destruct (is_graph_input m v || is_graph_output m v || Z.ltb sl (tensor_size t)) eqn:Eskip.
     { apply IH; auto. intros wt Hwt. destruct (Hseen wt Hwt) as [A [B C]]. repeat split; auto. simpl in C. tauto. }
     apply orb_false_iff in Eskip. destruct Eskip as [Eskip _]. apply orb_false_iff in Eskip. destruct Eskip as [Hvi Hvo].
-    destruct (find (fun wt => tensor_eqb (snd wt) t) seen) as [[w t']|] eqn:Ef.
-    - apply find_some in Ef. destruct Ef as [Hws Heq]. simpl in Heq. apply tensor_eqb_eq in Heq. subst t'.
+    destruct (find (fun wt => keyeq (snd wt) t) seen) as [[w t']|] eqn:Ef.
+    - apply find_some in Ef. destruct Ef as [Hws _].
+      destruct (tensor_eqb t' t) eqn:Heq.
+      2:{ apply IH; auto. intros wt Hwt. destruct (Hseen wt Hwt) as [A [B C]]. repeat split; auto. simpl in C. tauto. }
+      apply tensor_eqb_eq in Heq. subst t'.
       destruct (Hseen _ Hws) as [Hwin [Hwi Hwk]]. simpl in Hwi, Hwk.
       assert (Hne : v <> w) by (intros ->; apply Hwk; left; reflexivity).
       assert (P : Pres m (map_graphs (fun g => set_inits g (drop_init v g)) (replace_uses false v w m))).
@@ -610,9 +613,9 @@ Section Passes.
       + simpl. repeat split; auto. apply Hin. left. reflexivity.
   Qed.
 
-  Theorem dedup_inits_pres sl order m : WF m -> NoOpFunc m -> Pres m (dedup_inits sl order m).
+  Theorem dedup_inits_pres keyeq sl order m : WF m -> NoOpFunc m -> Pres m (dedup_inits keyeq sl order m).
   Proof.
-    intros HW HN. unfold dedup_inits. apply (Pres_fold (fun m r => match get_gref m r with Some g => dedup_graph_loop sl r (g_inits g) [] m | None => m end)); auto.
+    intros HW HN. unfold dedup_inits. apply (Pres_fold (fun m r => match get_gref m r with Some g => dedup_graph_loop keyeq sl r (g_inits g) [] m | None => m end)); auto.
     intros m0 r HW0 HN0. destruct (get_gref m0 r) as [g|] eqn:Eg; [|apply Pres_refl; assumption].
     apply get_gref_In in Eg. apply dedup_loop_pres; auto.
     - apply (NoDup_map_flat_map_elem fst g_inits (graphs_of m0) g); [apply (wf_inits_nodup m0 HW0) | exact Eg].
@@ -623,12 +626,12 @@ Section Passes.
   (* ------------------------------------------------------------ sequences of the proved passes *)
   Inductive pass : Type :=
   | PIdent (fuel : nat)
-  | PDedup (size_limit : Z) (order : list gref)
+  | PDedup (keyeq : tensor -> tensor -> bool) (size_limit : Z) (order : list gref)
   | PDce (unnamed : list vid) (opset_graphs : list gref) (fuel : nat).
   Definition apply_pass (m : model) (p : pass) : model :=
     match p with
     | PIdent fuel => identity_elim fuel m
-    | PDedup sl order => dedup_inits sl order m
+    | PDedup keyeq sl order => dedup_inits keyeq sl order m
     | PDce u ops fuel => dce [] u ops fuel m
     end.
   Definition frame_ok (m : model) : Prop := forall o, In o (snd (frame m)) -> ~ In o (map fst (fst (frame m))).
